@@ -189,6 +189,8 @@ static void one_execution(Trace& T, Rng& g, int N, int steps, bool is2d)
 	if(is2d)
 	{
 		int Nx = std::max(2, N), Ny = (int)g.range(2, std::max(2, std::min(N, 40)));
+		if(g.coin())
+			std::swap(Nx, Ny);	 // wide and tall tables alike
 		if(Nx < 3)
 			Nx = 3;	  // the helper 1D objects need three points on the pinned tree
 		if(Ny < 3)
@@ -275,8 +277,38 @@ static void one_execution(Trace& T, Rng& g, int N, int steps, bool is2d)
 				T.emit({{"e", "Q"}, {"o", o + 1}, {"kind", wantmax ? "GMax2" : "GMin2"}, {"p", 0}, {"q", 0}, {"knot", false}, {"same", bits(u) == bits(fr)}, {"r", 0}, {"sg", sg}, {"ex", ex}});
 				continue;
 			}
-			px		 = move(px, Nx);
-			py		 = move(py, Ny);
+			if(g.coin(0.12))
+			{	// a jump between two cells that a flattened cell number with a wrong stride (N_x, N_y, or one less, in either role) would
+				// identify: one cell up in one direction, a stride down in the other
+				int strides[4] = {Nx, Ny, Nx - 1, Ny - 1};
+				int st = strides[g.range(0, 3)], sgn1 = g.coin() ? 1 : -1;
+				int npx = px, npy = py;
+				if(g.coin())
+				{
+					npx = px + 2 * sgn1;
+					npy = py - 2 * sgn1 * st;
+				}
+				else
+				{
+					npy = py + 2 * sgn1;
+					npx = px - 2 * sgn1 * st;
+				}
+				if(npx >= 1 && npx <= 2 * Nx - 1 && npy >= 1 && npy <= 2 * Ny - 1)
+				{
+					px = npx;
+					py = npy;
+				}
+				else
+				{
+					px = move(px, Nx);
+					py = move(py, Ny);
+				}
+			}
+			else
+			{
+				px = move(px, Nx);
+				py = move(py, Ny);
+			}
 			double x = point_of(tx, px, (int)g.range(0, 3), &g), y = point_of(ty, py, (int)g.range(0, 3), &g);
 			px = code_of(tx, x);
 			py = code_of(ty, y);
